@@ -763,7 +763,8 @@ func (c *moduleConfig) WithName(name string) ModuleConfig {
 // WithStartFunctions implements ModuleConfig.WithStartFunctions
 func (c *moduleConfig) WithStartFunctions(startFunctions ...string) ModuleConfig {
 	ret := c.clone()
-	ret.startFunctions = startFunctions
+	// Called as WithStartFunctions(names...), the parameter is the caller's own slice: keep a copy.
+	ret.startFunctions = append([]string(nil), startFunctions...)
 	return ret
 }
 
